@@ -12,7 +12,7 @@ Overview: Provides reusable helper functions to eliminate duplication across lin
 
 Dependencies: BaseLintContext from src.core.base, ast for Python parsing
 
-Exports: get_metadata, get_metadata_value, load_linter_config, has_file_content, parse_python_ast,
+Exports: get_metadata, get_metadata_value, load_linter_config, require_number, has_file_content, parse_python_ast,
     with_parsed_python, resolve_file_path, is_ignored_path, get_line_context
 
 Interfaces: All functions take BaseLintContext and return typed values (dict, str, bool, Any)
@@ -115,6 +115,17 @@ def get_project_root(context: BaseLintContext) -> str | None:
     metadata = get_metadata(context)
     project_root = metadata.get("project_root")
     return str(project_root) if project_root is not None else None
+
+
+def require_number(name: str, value: object) -> None:
+    """Reject a threshold that is not a number as a configuration error (ValueError, exit 2).
+
+    Args:
+        name: Configuration key, for the message
+        value: Configured value
+    """
+    if not isinstance(value, (int, float)):
+        raise ValueError(f"{name} must be a number, got {value!r}")
 
 
 def load_linter_config(
